@@ -203,6 +203,7 @@ func init() {
 	control(Control{ID: "c14-shared-digest", Prop: "C14", File: "customfuncs/customFuncs.go",
 		Old:  "func UUIDv3(_ *transformctx.Ctx, s string) (string, error) {\n\treturn uuid.NewMD5(uuid.Nil, []byte(s)).String(), nil",
 		New:  "var uuidv3Hash = md5.New()\n\nfunc UUIDv3(_ *transformctx.Ctx, s string) (string, error) {\n\treturn uuid.NewHash(uuidv3Hash, uuid.Nil, []byte(s), 3).String(), nil",
+		Old2: "import (\n\t\"strings\"\n", New2: "import (\n\t\"crypto/md5\"\n\t\"strings\"\n",
 		Rule: "R14b", Substr: "uuidv3Hash", Why: "one digest object shared by every checksum computation"})
 	control(Control{ID: "c15-local-zone-format", Prop: "C15", File: "customfuncs/datetime.go",
 		Old: "\treturn rfc3339(t.In(loc), true), nil", New: "\tif len(tz) == 1 {\n\t\tt = t.In(loc)\n\t}\n\treturn rfc3339(t, true), nil",
